@@ -123,6 +123,12 @@ def _ga_rules(rep, prog):
             got[m] = (vals.pop(), sp[0].line)
     for m, p in sorted(want.items()):
         g = got.get(m)
+        if g is None:
+            # constant propagation did not reduce the selection to one constant (a table walked by a loop, an out-parameter, ...):
+            # nothing is known about the routing
+            rep.cannot_decide('GA.route', where(fn, fn['l']), 'gA mode %d: the process handed to set_process() is not a constant after '
+                              'propagating the mode through _init_ and its file-local helpers' % m)
+            continue
         rep.add('GA.route', 'mode%d' % m, where(fn, g[1] if g else fn['l']),
                 'gA mode %d selects dbd_gA process %d' % (m, p), g is not None and g[0] == p,
                 None if g and g[0] == p else ['found: %s' % (g,)])
